@@ -245,3 +245,27 @@ Theorem kfold_only_when_value : forall d o args S il e,
                /\ e = KLit r /\ snd (fst (fold_eval d o cs)) = [] /\ snd (fold_eval d o cs) = d.
 Proof. exact KindedProofs.kfold_only_when_value. Qed.
 Print Assumptions kfold_only_when_value.
+
+(** ROUND 2 — the callers of the helpers (digit loops of sexp_bignum_fxmul / sexp_bignum_fxdiv, the fixnum*fixnum case of
+    sexp_mul and of the VM's SEXP_OP_MUL) as RE-TRANSLATED from bignum.c / vm.c of the checked tree into
+    Gen/C09_Callers.v on every run (gen/c09_callers.py; round 1 mirrored them by hand): same statement as
+    custom_long_longs_refines_native, now about the regenerated text. *)
+From ChibiV Require Import Gen.C09_Callers C09.CallersProofs.
+
+Theorem regenerated_callers_refine_native :
+  (forall x b carry, u64 x -> u64 b -> u64 carry ->
+     C09_Callers.fxmul_step x b carry = ((x * b + carry) mod M64, (x * b + carry) / M64)) /\
+  (forall r d b, u64 r -> u64 d -> u64 b -> r < b ->
+     C09_Callers.fxdiv_step r d b = ((r * M64 + d) / b, (r * M64 + d) mod b)) /\
+  (forall a b, - 4611686018427387904 <= a <= 4611686018427387903 -> - 4611686018427387904 <= b <= 4611686018427387903 ->
+     C09_Callers.fixmul a b = (if (- 4611686018427387904 <=? a * b) && (a * b <=? 4611686018427387903) then Some (a * b) else None) /\
+     C09_Callers.fixmul_vm a b = C09_Callers.fixmul a b).
+Proof. exact CallersProofs.regenerated_callers_refine_native. Qed.
+Print Assumptions regenerated_callers_refine_native.
+
+(** the digit loop of sexp_bignum_fxrem (regenerated; round 2): invariant "running remainder < divisor" is kept and the
+    step computes (n * 2^64 + d) mod b0 on Z — what the native 128-bit arm computes *)
+Theorem fxrem_step_Z : forall n d b, lu_ok n -> u64 d -> u64 b -> luval n < b ->
+  lu_ok (C09_Callers.fxrem_step n d b) /\ luval (C09_Callers.fxrem_step n d b) = (luval n * M64 + d) mod b.
+Proof. exact CallersProofs.fxrem_step_Z. Qed.
+Print Assumptions fxrem_step_Z.
